@@ -189,6 +189,47 @@ def rule_eq1(ctx: Ctx, files=None, min_instances=1) -> RuleResult:
     return r
 
 
+def rule_eq2(ctx: Ctx, files=None) -> RuleResult:
+    """EQ-2, the converse of EQ-1: a marker OBJECT (STATE_NOTSET, a private sentinel) is told apart by identity.  `value == MARKER` runs
+    the __eq__ of whatever the slot holds -- user data: a numpy array answers with an array (the `if` raises), a catch-all __eq__
+    answers True (the accumulator is re-seeded at every item)."""
+    r = RuleResult("EQ-2", "marker objects are compared by identity (is / is not): == would run the __eq__ of the user value on the other side")
+    prog = ctx.program
+    for rel, m in sorted(prog.by_relpath.items()):
+        if (files is not None and rel not in files) or not rel.startswith("rxsci/"):
+            continue
+        for node in ast.walk(m.tree):
+            if not isinstance(node, ast.Compare):
+                continue
+            left = node.left
+            for op, right in zip(node.ops, node.comparators):
+                if isinstance(op, (ast.Eq, ast.NotEq)):
+                    fn = m.enclosing_function(node)
+                    for side, other in ((left, right), (right, left)):
+                        dn = dotted_name(side)
+                        if dn is None or not dn.split(".")[-1].startswith("STATE_") or isinstance(other, ast.Call) and dotted_name(other.func) and dotted_name(other.func).endswith(".value"):
+                            continue
+                        ref = prog.resolve_dotted(m, dn)
+                        if not ref or ref[0] != "assign" or not ref[1].name.startswith("rxsci"):
+                            continue
+                        r.instances += 1
+                        qn = m.scopes[fn].qualname if fn is not None else "<module>"
+                        r.ob(False, lambda node=node, qn=qn, dn=dn: Finding(
+                            "EQ-2", "%s::%s{%s}" % (rel, qn, ast.unparse(node)[:60]), m.where(node),
+                            "'%s' compares with the marker %s by ==: the other operand is what the slot holds (user data), whose __eq__ runs first -- a numpy "
+                            "array makes the test raise, an object equal to everything is taken for 'not set'; markers are told apart with 'is'" % (
+                                ast.unparse(node), dn.split(".")[-1])))
+                elif isinstance(op, (ast.Is, ast.IsNot)):
+                    for side in (left, right):
+                        dn = dotted_name(side)
+                        if dn is not None and dn.split(".")[-1].startswith("STATE_"):
+                            r.instances += 1
+                            r.ob(True)
+                left = right
+    r.require_instances(1 if files is not None else 5)
+    return r
+
+
 # ======================================================================
 # FW-1
 FW_HEADS = {
